@@ -66,3 +66,42 @@ Definition project_not_same (ex : bool) (pi : Z -> Qc) (rich simple : coords) (r
       | MOk rho => MOk (update_param_rules_not_same pi rho rich pm rules)
       end
   end.
+
+(** * rules with their "init" and "value" fields
+
+    get_param_rules gives a free term the key "init" and a CONSTANT term
+    ("is_constant": True) the key "value".  update_param_rules (l.~213-241) reads
+    the mle from "value" for a constant rule and from "init" otherwise, copies
+    the rule and stores the PROJECTED value under "init" (the old "value" stays in
+    the copy).  update_rule_value / extend_rule_value (l.44-64) then hand
+    [null.get("init", null.get("value"))] to the rich rule: "init" first, which
+    is the projected value. *)
+Record prule := mkprule {
+  p_par : name; p_edges : option (list name); p_const : bool;
+  p_value : option Qc; p_init : option Qc
+}.
+
+(** rule[par_val_key]  (None: KeyError, not a rule get_param_rules produces) *)
+Definition p_mle (r : prule) : option Qc := if p_const r then p_value r else p_init r.
+
+(** one rule through update_param_rules, same = False *)
+Definition project_prule (pi : Z -> Qc) (rho : Qc) (rich : coords) (pmap : list (name * list name)) (r : prule)
+  : list prule :=
+  if name_eqb (p_par r) n_mprobs || name_eqb (p_par r) n_length then [r]
+  else match p_mle r with
+       | None => []
+       | Some mle => map (fun nv => mkprule (fst nv) (p_edges r) (p_const r) (p_value r) (Some (snd nv)))
+                         (rate_not_same pi rho rich pmap (p_par r) mle)
+       end.
+
+(** null.get("init", null.get("value")) *)
+Definition null_rule_value (n : prule) : option Qc :=
+  match p_init n with Some v => Some v | None => p_value n end.
+
+(** the variant that prefers "value" (a seeded change): reads the un-projected number of a constant rule *)
+Definition null_rule_value_value_first (n : prule) : option Qc :=
+  match p_value n with Some v => Some v | None => p_init n end.
+
+(** the rule as the integer/rational-valued model of the projection sees it *)
+Definition prule_as_qrule (r : prule) : option qrule :=
+  match p_mle r with Some v => Some (mkqrule (p_par r) (p_edges r) v) | None => None end.
